@@ -537,6 +537,8 @@ def id_ops(st):
     cids = [c["id"] for c in ch]
     for s in subsets(cids + ["?"]):
         yield {"q": "guids", "ids": s}
+        if "?" in s and len(s) > 1:
+            yield {"q": "guids", "ids": ["?"] + [x for x in s if x != "?"]}  # the unknown one FIRST as well as last
         if len(s) == 1:
             yield {"q": "guids", "ids": s, "bare": True}
     idents = sorted({c["id"] for c in ch} | {c["name"] for c in ch if c["name"]})
@@ -548,6 +550,11 @@ def id_ops(st):
     for s in subsets(gids + ["?"]):
         for q in ("interval_guids", "tx_guids", "feat_guids"):
             yield {"q": q, "ids": s}
+            if "?" in s and len(s) > 1:
+                yield {"q": q, "ids": ["?"] + [x for x in s if x != "?"]}
+                if len(s) > 2:
+                    rest = [x for x in s if x != "?"]
+                    yield {"q": q, "ids": rest[:1] + ["?"] + rest[1:]}
             if len(s) == 1:
                 yield {"q": q, "ids": s, "bare": True}
 
